@@ -28,6 +28,10 @@ def states(tier, seed):
         st.append(dict(part="stress", layout=lay, side=side, ny=ny, model=model, fam=fam))
     for N, model, pat, mag, yld, rho in itertools.product(range(1, 9), ["tube", "wingbox"], ["equal", "peak", "ladder", "zeros", "two_max"], [0.0, 1.0, 1e6, 1e9, 1e12], [1.0, 2e8], [10.0, 100.0]):
         st.append(dict(part="ks", N=N, model=model, pattern=pat, mag=mag, yld=yld, rho=rho, fam=fam))
+    # the distances that turn curvature into the extreme-fibre bending stresses of the wingbox (htop, hbottom): geometric depth of
+    # the element's own (scaled, twisted) section, for airfoil data whose upper and lower surfaces are sampled at different stations
+    for grid, tw, tc in itertools.product(["same", "lower_clustered", "upper_clustered"], [0.0, 0.15, -0.2], [0.12, 0.09]):
+        st.append(dict(part="boxdepth", grid=grid, twist=tw, tc=tc, fam=fam))
     # exact failure: also with an upper-skin strength factor != 1 (wingbox) and other allowables; the same stresses go through the
     # KS aggregate, which must bracket the largest exact value
     for N, model, tssf, yf in itertools.product([1, 3, 5], ["tube", "wingbox"], [1.0, 0.8, 1.25, 0.5], [1.0, 0.37]):
@@ -229,6 +233,57 @@ def part_ks(s):
         if not f <= fi.max() + np.log(n) / s["rho"] + tol:
             viol.append(dict(sig=dict(oracle="ks_upper_bound"), msg="KS %.15g exceeds max + ln(N)/rho = %.15g" % (f, fi.max() + np.log(n) / s["rho"]), measure=float(f - fi.max())))
     return dict(viol=viol, nontrivial=True, digest=digest_arrays(np.array([f])), transitions=1, validated=3)
+
+
+def part_boxdepth(s):
+    from openaerostruct.structures.section_properties_wingbox import SectionPropertiesWingbox
+
+    n = 4
+    m = gen.rect_full(2, n + 1)
+    surf = builders.struct_surface("w", m, False, "wingbox")
+    npt = len(surf["data_x_upper"])
+    x0, x1 = surf["data_x_upper"][0], surf["data_x_upper"][-1]
+    t = np.linspace(0.0, 1.0, npt)
+    fu = lambda x: 0.06 * np.sqrt(1 - ((x - 0.38) / 0.62) ** 2) - 0.005  # noqa: E731
+    fl = lambda x: -0.05 * np.sqrt(1 - ((x - 0.35) / 0.65) ** 2) + 0.004  # noqa: E731
+    xu = x0 + (x1 - x0) * (t**3 if s["grid"] == "upper_clustered" else t)
+    xl = x0 + (x1 - x0) * (t**4 if s["grid"] == "lower_clustered" else t)
+    surf.update(data_x_upper=xu, data_y_upper=fu(xu), data_x_lower=xl, data_y_lower=fl(xl))
+    chord = gen.gen((n,), 1, 1.0, 2.0, s["fam"])
+    sch = chord * gen.gen((n,), 2, 1.0, 1.15, s["fam"])
+    tc = np.full(n, s["tc"])
+    th = np.full(n, s["twist"]) * gen.gen((n,), 3, 0.7, 1.3, s["fam"])
+
+    def props(sf, twist):
+        q = om.Problem(reports=False)
+        q.model.add_subsystem("c", SectionPropertiesWingbox(surface=sf), promotes=["*"])
+        q.setup()
+        for k, v in (("fem_chords", chord), ("streamwise_chords", sch), ("fem_twists", twist), ("spar_thickness", np.full(n, 0.006)), ("skin_thickness", np.full(n, 0.01)), ("t_over_c", tc)):
+            q.set_val(k, v)
+        q.run_model()
+        return {k: np.array(q[k], dtype=float).copy() for k in ("A", "Iz", "J", "A_enc", "A_int", "htop", "hbottom", "Qz")}
+
+    P = props(surf, th)
+    got = P["htop"] + P["hbottom"]
+    viol = []
+    # the section turned upside down (upper and lower surface exchanged and negated, twist negated) is the mirror image of the
+    # section: same area, bending inertia, torsion constant, enclosed areas and first moment; htop and hbottom exchanged
+    flip = dict(surf)
+    flip.update(data_x_upper=xl, data_y_upper=-fl(xl), data_x_lower=xu, data_y_lower=-fu(xu))
+    Q = props(flip, -th)
+    for a, b in (("A", "A"), ("Iz", "Iz"), ("J", "J"), ("A_enc", "A_enc"), ("A_int", "A_int"), ("Qz", "Qz"), ("htop", "hbottom"), ("hbottom", "htop")):
+        e = np.abs(P[a] - Q[b]).max() / max(np.abs(P[a]).max(), 1e-300)
+        if not e <= 1e-11:
+            viol.append(dict(sig=dict(oracle="wingbox_section_flip_symmetry", quantity=a, grid=s["grid"], twisted=bool(s["twist"] != 0)), msg="%s of the section differs from %s of its upside-down mirror image by %.2e" % (a, b, e), measure=float(e)))
+    fy = tc / surf["original_wingbox_airfoil_t_over_c"] * sch / chord
+    for e in range(n):
+        c_, s_ = np.cos(th[e]), np.sin(th[e])
+        yu = -s_ * xu * chord[e] + c_ * fu(xu) * chord[e] * fy[e]
+        yl = -s_ * xl * chord[e] + c_ * fl(xl) * chord[e] * fy[e]
+        depth = yu.max() - yl.min()
+        if not (depth - 1e-12 <= got[e] <= depth + 2 * np.log(npt) / 500.0 + 1e-12):
+            viol.append(dict(sig=dict(oracle="wingbox_fibre_distances", grid=s["grid"], twisted=bool(s["twist"] != 0)), msg="element %d: htop + hbottom = %.6f, geometric depth of the rotated section %.6f (allowance of the smooth maximum %.4f)" % (e, got[e], depth, 2 * np.log(npt) / 500.0), measure=float(abs(got[e] - depth))))
+    return dict(viol=viol, nontrivial=True, digest=digest_arrays(got), transitions=2, validated=n + 8)
 
 
 def part_exact(s):
